@@ -214,6 +214,9 @@ pub struct FrameMonitor {
     stack: Vec<Saved>,
     /// The caller's protected region as it was before the CALL instruction ran.
     pre_call: Option<Vec<u8>>,
+    /// Call arguments read before the instruction ran (the frame may be written over them):
+    /// callee id, asset id, parameters a/b.
+    pre_args: Option<(Vec<u8>, Vec<u8>, Vec<u8>)>,
     pub max_depth: usize,
     pub recursive: bool,
     pub retd_len: bool,
@@ -222,11 +225,18 @@ pub struct FrameMonitor {
 impl Monitor for FrameMonitor {
     fn before(&mut self, vm: &mut Vm, pre: &Pre) {
         self.pre_call = None;
+        self.pre_args = None;
         let Some(word) = pre.word else { return };
         if !valid(word) || opcode_of(word) != Some(O::CALL) {
             return;
         }
         let r = &pre.regs;
+        {
+            let d = dec(word);
+            let rd = |addr: u64, n: usize| vm.memory().read(addr, n).map(|b| b.to_vec()).unwrap_or_default();
+            let a = r[d.a as usize & 63];
+            self.pre_args = Some((rd(a, 32), rd(r[d.c as usize & 63], 32), rd(a.saturating_add(32), 16)));
+        }
         let lo = if r[FP as usize] == 0 { r[SSP as usize] } else { r[FP as usize] };
         let hi = r[SP as usize];
         if hi >= lo {
@@ -267,9 +277,13 @@ impl Monitor for FrameMonitor {
                 Err(_) => return Some(("call-frame".into(), "call-frame:unreadable".into(), format!("step {step}: call frame at $fp={fp} is not readable"))),
             };
             // callee id and asset id from the call arguments
-            let to = vm.memory().read(pre[info.d.a as usize & 63], 32usize).map(|b| b.to_vec()).unwrap_or_default();
-            let asset = vm.memory().read(pre[info.d.c as usize & 63], 32usize).map(|b| b.to_vec()).unwrap_or_default();
-            let ab = vm.memory().read(pre[info.d.a as usize & 63] + 32, 16usize).map(|b| b.to_vec()).unwrap_or_default();
+            let (to, asset, ab) = match self.pre_args.take() {
+                Some(x) => x,
+                None => return None,
+            };
+            if to.len() != 32 || asset.len() != 32 {
+                return None;
+            }
             let mut callee = [0u8; 32];
             if to.len() == 32 {
                 callee.copy_from_slice(&to);
